@@ -398,7 +398,21 @@ def guess? : List String → Option Guess
   | ["other"] => some .other
   | _ => none
 
+/-- The two sides of `em_monotone_tables`: the exact likelihood (sum over all paths) of the model
+    and of the model with `π`, `A` replaced by what `ClassicHmm.update` computes from the
+    forward–backward run, emission table kept. -/
+def emTables (K : Nat) (pi : Nat → Rat) (A : Nat → Nat → Rat) (B : List Vec) : Option (Rat × Rat) :=
+  (forwardBackward K pi A B).map fun r =>
+    (likelihoodSpec K pi A B,
+      likelihoodSpec K (atR (updPi r.gammas)) (fnOfRows (updA K r.gammas r.xis)) B)
+
+/-- `Σπ ≤ 1` and every row of `A` sums to at most one (exactly normalised models, and doubles
+    whose rounding went down). -/
+def subStochastic (K : Nat) (pi : Nat → Rat) (A : Nat → Nat → Rat) : Bool :=
+  decide (sumK K pi ≤ 1) && (List.range K).all (fun i => decide (sumK K (A i) ≤ 1))
+
 /-- ops:
+  `c16.emtab K pi A B`              → `L L' (L ≤ L') hypotheses` (`em_monotone_tables`: small traces only, all paths summed)
   `c16.vit K logpi logA logB path`  → `modelpath optimum score(path) scale` (`N` = −∞, `bad` = wrong shape)
   `c16.fb K pi A B data`            → `c gammas xis pi' A' mean' var'` or `degenerate` (some `c_t = 0`)
   `c16.dwell path T|F`              → state ranges;  `c16.dwellc path T|F` → dwell counts
@@ -442,6 +456,17 @@ def handle : List String → Option String
                 && r.xis.all (fun x => (List.range K).all (fun i => (List.range K).all (fun j =>
                   decide (0 ≤ atR (x.getD i []) j)))))
             ++ " " ++ showBool ((List.range K).all (fun i => decide (atR pi i ≤ 0) || decide (0 < occupancy r.gammas i))))
+  | ["c16.emtab", K, pi, A, B] => do
+    let K ← nat? K
+    let pi ← ratList? pi
+    let A ← ratListList? A
+    let B ← ratListList? B
+    if K = 0 ∨ pi.length ≠ K ∨ A.length ≠ K ∨ A.any (·.length ≠ K) ∨ B.any (·.length ≠ K) then none
+    else match emTables K (atR pi) (fnOfRows A) B with
+      | none => some "IndexError"
+      | some (l0, l1) =>
+        some (showR l0 ++ " " ++ showR l1 ++ " " ++ showBool (decide (l0 ≤ l1)) ++ " "
+          ++ showBool (posModel K (atR pi) (fnOfRows A) B && subStochastic K (atR pi) (fnOfRows A)))
   | ["c16.dwell", path, ex] => do
     let path ← listOf? label? path
     let ex ← bool? ex
